@@ -22,13 +22,22 @@ class Ctx:
     def explore(self, func, gen_cancel=False, gen_bodyexc=False, bindings=None, model=None, self_cls=None, **kw):
         key = (func.qualname, gen_cancel, gen_bodyexc, tuple(sorted((bindings or {}).items())),
                model.__name__ if model else None, tuple(sorted(kw.items())), self_cls.name if self_cls else None)
+        if isinstance(self._cache.get(key), AnalysisError):
+            raise self._cache[key]          # (an exploration that failed is not tried again by the next rule)
         if key not in self._cache:
             cls = model or RunModel
             an = cls(self.prog, self.roles, self.sigs, gen_cancel=gen_cancel, gen_bodyexc=gen_bodyexc, **kw)
             ip = Interp(self.prog, an)
-            out = ip.run(func, bindings=bindings, self_cls=self_cls)
+            try:
+                out = ip.run(func, bindings=bindings, self_cls=self_cls)
+            except AnalysisError as exc:
+                self._cache[key] = exc
+                raise
             cut = ip.__dict__.get('cutoffs')
             if cut:
+                self._cache[key] = AnalysisError("helpers nested more than %d calls deep below %s (%s): what they do is not followed, "
+                                                 "nothing can be concluded" % (an.max_inline, func.qualname, ", ".join(sorted(cut)[:4])))
+                raise self._cache[key]
                 raise AnalysisError("helpers nested more than %d calls deep below %s (%s): what they do is not followed, "
                                     "nothing can be concluded" % (an.max_inline, func.qualname, ", ".join(sorted(cut)[:4])))
             self.stats['functions_analysed'].add(func.qualname)
